@@ -42,7 +42,7 @@ FLOORS = {
     "F1": 10, "F2": 10, "F3": 10, "F4": 8, "F5": 25, "F6": 3, "F7": 2, "F9": 200, "F10": 2, "F11": 1, "F8": 8, "O1": 30,
     "O2": 6, "O3": 20, "S1": 20,
     "X1": 5, "X2": 40, "X3": 6,
-    "P1": 3, "P2": 5, "P3": 5, "P4": 2, "P5": 3, "P6": 9, "P7": 5, "P8": 2, "P9": 1, "P10": 1, "P11": 1,
+    "P1": 3, "P2": 2, "P3": 5, "P4": 2, "P5": 3, "P6": 9, "P7": 5, "P8": 2, "P9": 1, "P10": 1, "P11": 1,
     "E7": 30, "U1": 5, "S2": 12, "S3": 15, "G1": 6, "G2": 5, "G3": 8, "G4": 5, "S1b": 6, "M1": 2,
     "N1": 25, "N2": 8, "O4": 3, "O5": 4, "O6": 2, "O7": 4, "V1": 10, "V2": 1, "S4": 1, "S5": 3, "S6": 10, "S7": 4, "S1c": 12,
 }
